@@ -12,6 +12,8 @@ import Driver.Util
       `s:<isz>:<shape>:<idx>`: partial read `dataobj[idx]`, idx items `i<k>` / `s<a>,<b>,<c>` (`_` = None) joined by `;`)
     * `trk <nsc> <npr> <npts a,b|-> <count _|n> <orig 0|1> <k> <m> <strict>`
     * `tck <hex header lines a,b|-> <npts a,b|-> <k> <m> <strict>`
+    * `tckb <buffer bytes> <hex header lines> <npts> <k> <m> <strict>`  the chunked loop of `_read` with that buffer size
+    (`hdr`/`img` members: `<padLen>` = data offset inside the image file)
     * `xml <plainLen> <rootEnd> <k> <m> <strict>`
     `k` = bytes on disk (0 ⇒ `load` refuses), `m`/`strict` = what the opened file delivers. -/
 namespace Nb.Drv.C08
@@ -116,23 +118,23 @@ def handle : List String → String
             let xmlLen := match pl with | n :: _ => n | [] => 0
             outcome (load k (ciftiRead fmt um xmlLen s)) img.data ++ " " ++ toString file.length
           else if member = "hdr" then
-            let file := writeHdrFile fmt img
+            let file := writeHdrFileAt fmt img
             let hs : Src := ⟨file.take m, st⟩
-            let is := Src.plain (writeImgFile img)
+            let is := Src.plain (writeImgFileAt img)
             let r := match tl with
               | .all => readPair fmt um hs is
               | .tail a => readTailPair fmt hs is a
               | .slice isz shape idx => readSlicePair fmt hs is idx shape isz
-            outcome (load k r) (want (writeImgFile img) 0) ++ " " ++ toString file.length
+            outcome (load k r) (want (writeImgFileAt img) padn) ++ " " ++ toString file.length
           else if member = "img" then
-            let file := writeImgFile img
-            let hs := Src.plain (writeHdrFile fmt img)
+            let file := writeImgFileAt img
+            let hs := Src.plain (writeHdrFileAt fmt img)
             let is : Src := ⟨file.take m, st⟩
             let r := match tl with
               | .all => readPair fmt um hs is
               | .tail a => readTailPair fmt hs is a
               | .slice isz shape idx => readSlicePair fmt hs is idx shape isz
-            outcome (load k r) (want file 0) ++ " " ++ toString file.length
+            outcome (load k r) (want file padn) ++ " " ++ toString file.length
           else "bad-op"
       | _, _, _, _, _, _, _, _, _, _, _, _, _, _, _, _ => "bad-op"
   | ["trk", nsc, npr, npts, cnt, orig, _k, m, st] =>
@@ -154,6 +156,16 @@ def handle : List String → String
           let file := tckWrite t
           outcome (tckRead ⟨file.take m, st⟩) (streams.filter (· ≠ [])) ++ " " ++ toString file.length
       | _, _, _, _ => "bad-op"
+  | ["tckb", bsz, lines, npts, _k, m, st] =>
+      match bsz.toNat?, parseHexList? lines, parseNatList? npts, m.toNat?, parseBool? st with
+      | some bsz, some lines, some npts, some m, some st =>
+          if bsz = 0 ∨ bsz % 12 ≠ 0 then "bad-op" else
+          let streams : List (List Bytes) := npts.zipIdx.map (fun (n, i) =>
+            (List.range n).map (fun j => synthTriple (i * 17 + j)))
+          let t : Tck := { lines := lines, streams := streams }
+          let file := tckWrite t
+          outcome (tckReadB bsz ⟨file.take m, st⟩) (streams.filter (· ≠ [])) ++ " " ++ toString file.length
+      | _, _, _, _, _ => "bad-op"
   | ["xml", plen, rootEnd, k, m, st] =>
       match plen.toNat?, rootEnd.toNat?, k.toNat?, m.toNat?, parseBool? st with
       | some plen, some rootEnd, some k, some m, some st =>
